@@ -19,7 +19,7 @@
   * `behaviour_congr` — every follow-up PROGRAM gives the same outcome on the restored object
     (follow-ups are functions of the state; the theorem is what turns "equal right after loading"
     into "behaves the same afterwards").
-  * `identity_loss_pinned_unary / binaryQ / binarySelf / pow / mul / to` — which follow-ups can tell
+  * `identity_loss_pinned_unary / binaryQ / binarySelf / pow / mul / to / inBase` — which follow-ups can tell
     an object whose identity bit was lost: through the whole dispatcher model (`Ufunc.dispatch`:
     unary path, binary path with its dimension check, zero exception, K/R guard, conversion of the
     second operand, rule functions, multiply/divide post-processing, power path) only those whose
@@ -33,6 +33,7 @@
 -/
 import UnytProofs.Lemmas.C11
 import UnytProofs.Lemmas.C11Binary
+import UnytProofs.Lemmas.C11InBase
 import UnytModel.PersistCheck
 
 set_option linter.unusedSectionVars false
@@ -183,6 +184,18 @@ theorem identity_loss_pinned_binarySelf (C : FCtx K) (hb : UeqBlindF C) (x : POb
   · intro o o' hf hm; funext a; simp [hf, hm]
   · exact binaryPath_rsim (C.ufunc x.reg) (ueqBlind_of C x.reg hb) _ rfl _ _ _ _
       (rsim_lose x.unit (reprOf x.unit) h) (rsim_lose x.unit (reprOf x.unit) h) _
+
+
+/-- `x.in_base(…)` never can tell: the unit-system conversion reads expression, dimension, scale and
+    offset of the unit, never the identity bit (and the result's bit comes from the registry rows) -/
+theorem identity_loss_pinned_inBase (C : FCtx K) (x : PObj K) (sys : Option String) :
+    follow C (.inBase sys) x.loseCanon = follow C (.inBase sys) x := by
+  simp only [follow, PObj.loseCanon]
+  cases C.systems.find? (fun S => S.name == sys.getD x.reg.usys) with
+  | none => rfl
+  | some S =>
+    exact inBase_follow_aux C.pre x.reg.rows.lut C.em S x.reg.rows x.vals _ x.unit
+      (fun v => inBase_blind C.pre x.reg.rows.lut C.em S x.unit false v)
 
 
 end general
